@@ -251,7 +251,28 @@ def _run_factory(case):
     gp = Z.proto(et)
     if not np.allclose(gp.Get_weight_pg(MatrixType[mt]), w, rtol=0, atol=0):
         v.append(viol("gauss_object", f"groupElem.Get_weight_pg({mt}) differs from the factory", **key))
-    return {"violations": v, "fingerprint": fp(et, mt, w.size, md), "nontrivial": w.size > 1, "transitions": 3,
+    # the arrays a rule hands out belong to the caller: editing them in place (w /= w.sum(), c += shift) must not reach the rule that
+    # the next caller receives
+    saved_c, saved_w = c.copy(), w.copy()
+    for getter in (lambda: Gauss.Gauss_factory(ElemType[et], MatrixType[mt]), lambda: (g.coord, g.weights),
+                   lambda: (Gauss(ElemType[et], MatrixType[mt]).coord, gp.Get_weight_pg(MatrixType[mt]))):
+        try:
+            cc, ww = getter()
+            cc, ww = np.asarray(cc), np.asarray(ww)
+            if cc.flags.writeable:
+                cc += 0.37
+            if ww.flags.writeable:
+                ww *= 3.0
+        except (ValueError, TypeError):
+            pass  # read-only arrays are a legitimate way of protecting the tables
+    c2, w2 = Gauss.Gauss_factory(ElemType[et], MatrixType[mt])
+    g2 = Gauss(ElemType[et], MatrixType[mt])
+    ok2 = (np.array_equal(np.asarray(c2, dtype=float), saved_c) and np.array_equal(np.asarray(w2, dtype=float), saved_w)
+           and np.array_equal(np.asarray(g2.weights, dtype=float), saved_w) and np.array_equal(np.asarray(Z.proto(et).Get_weight_pg(MatrixType[mt]), dtype=float), saved_w))
+    if not ok2:
+        v.append(viol("rule_not_pure", f"{et}/{mt}: after a caller edited the arrays it was given in place, the rule served next has changed "
+                                       f"(sum of weights {float(np.sum(w2))!r}, reference measure {REF_MEASURE[shape]!r})", **key))
+    return {"violations": v, "fingerprint": fp(et, mt, w.size, md), "nontrivial": w.size > 1, "transitions": 6,
             "outcome": f"n{w.size}deg{md}" if not v else "violation"}
 
 
